@@ -133,5 +133,6 @@ for a in range(half):
 tail = tail.replace("@@TIMES@@", "\n".join(rows))
 seeds = open(D + 'seeds.md').read().strip() if os.path.exists(D + 'seeds.md') else "| (to be filled) | | | |"
 tail = tail.replace("@@SEEDS@@", seeds)
+tail = tail.replace("@@MUTANTS@@", open(D + 'mutants.md').read().strip() if os.path.exists(D + 'mutants.md') else "(not generated)")
 open('/verif/DESIGN.md', 'w').write(head + "\n" + body.rstrip("\n") + "\n\n\n" + tail)
 print("DESIGN.md written", len((head + body + tail).split("\n")), "lines")
